@@ -99,7 +99,9 @@ func setupFor(nStripes int, uni [][]byte, keyLists [][]int, stale bool) func() *
 			bodies = append(bodies, func() {
 				g := m.Acquire(keys)
 				inside[i] = true
-				order = append(order, i)
+				if !schedmc.FreeRunning {
+					order = append(order, i)
+				}
 				vsched.Named("critical-section")
 				inside[i] = false
 				g.Release()
@@ -203,6 +205,18 @@ func jobs(thorough bool) []job {
 }
 
 func main() {
+	if os.Getenv("VERIF_PROP") == "C20-race" {
+		// supporting pass: the same thread bodies, free-running under the race detector
+		r := vr.Start("C20-race")
+		unis := map[int][][]byte{2: keyUniverse(2), 8: keyUniverse(8)}
+		var scs []schedmc.Scenario
+		for _, j := range jobs(false) {
+			if len(j.lists) == 3 || j.stale {
+				scs = append(scs, schedmc.Scenario{Name: j.name(), Setup: setupFor(j.stripes, unis[j.stripes], j.lists, j.stale)})
+			}
+		}
+		schedmc.FreeRunMain(r, scs, r.Pick(50, 500))
+	}
 	r := vr.Start("C20")
 	if r.ReplayPath != "" {
 		var rp struct {
